@@ -20,6 +20,8 @@ import PsutilModel.Proofs.C16Reads
 import PsutilModel.Model.C16Gen
 import PsutilModel.Proofs.C16Rec
 import PsutilModel.Model.C16RecGen
+import PsutilModel.Proofs.C16Act
+import PsutilModel.Model.C16ActGen
 namespace Psutil.C16
 open Spec
 
@@ -1060,3 +1062,82 @@ example : outs cfgPop ⟨St.init, [7, 5, 9]⟩ [.enter, .call 0, .call 1]
     = [.unit, .ret (.ok [("utime", 5), ("blkio_ticks", 9)]), .ret (.ok [("utime", 5), ("blkio_ticks", 0)])] := by decide
 
 end Psutil.C16.Rec
+
+/- =========================================================================================
+   Part 6 — calls of any shape inside a block (Model/C16Act.lean, Spec/C16Act.lean, Proofs/C16Act.lean): methods
+   with arguments, methods that BLOCK (the kernel records move on while the call sleeps), methods asking several
+   sources, and cache (de)activation issued from a method's own code instead of oneshot()'s entry / exit.
+   ========================================================================================= -/
+namespace Psutil.C16.Act
+
+/-- obligation on the translator's fact `cacheOpSites`: every place of the three modules that touches a `_cache`
+    attribute or calls cache_activate / cache_deactivate / oneshot_enter / oneshot_exit lies in the decorator, in
+    oneshot() or in the platform's oneshot_enter / oneshot_exit (a bare presence test may be anywhere); every site
+    was understood; oneshot() (de)activates both levels -/
+theorem acfg_good : acfgGood = true := by decide
+
+/-- hence no public method's code performs a cache operation of its own: its model body is exactly the questions
+    and blocking points it was given -/
+theorem C16_no_method_touches_the_caches (fn : String) (b : Body) : bodyOf fn b = b := by
+  have h : Gen.C16.cacheOpSites.all siteOk = true := by
+    have := acfg_good
+    simp only [acfgGood, Bool.and_eq_true] at this
+    exact this.1.1.1.1.1
+  have hs : strayOps fn = [] := by
+    unfold strayOps
+    have : Gen.C16.cacheOpSites.filter (fun x => x.1 == fn && !siteOk x) = [] := by
+      rw [List.filter_eq_nil_iff]
+      intro x hx
+      have := List.all_eq_true.mp h x hx
+      simp [this]
+    rw [this]; rfl
+  simp [bodyOf, hs]
+
+/-- the value clause for calls of ANY shape: every history of enter / exit / nested levels / kernel changes / calls
+    whose body asks any sources in any order, through the front-end memoisation or around it, and blocks any number
+    of times while the records change — as long as no body (de)activates a cache itself — answers every question
+    with the content at the first question about that source in the open outermost block (outside: now) -/
+theorem C16_any_call_shape_answers_at_first_read (w : World) (h : List Op) (hc : h.all Op.clean = true) :
+    outs (St.init w) h = ASpec.outsS (ASpec.SSt.init w) h :=
+  (run_rel h _ _ hc (rel_init w)).1
+
+/-- the read clause for calls of any shape: while a block is open each cached source has been read at most once
+    since the block was entered, whatever was called in between -/
+theorem C16_any_call_shape_reads_at_most_once (w : World) (h : List Op) (hc : h.all Op.clean = true)
+    (hd : 0 < (ASpec.runS (ASpec.SSt.init w) h).1.depth) (s : Src) : (run (St.init w) h).1.reads s ≤ 1 :=
+  rel_reads (run_rel h _ _ hc (rel_init w)).2 hd s
+
+/-- the same for the code as it is: bodies built by `bodyOf` for any function name of the source -/
+theorem C16_any_call_shape_current (w : World) (h : List (Option (String × Body × List World) × Op))
+    (hwf : ∀ x ∈ h, match x.1 with | some (fn, b, ws) => x.2 = .call (bodyOf fn b) ws ∧ Body.clean b = true | none => x.2.clean = true) :
+    outs (St.init w) (h.map (·.2)) = ASpec.outsS (ASpec.SSt.init w) (h.map (·.2)) := by
+  apply C16_any_call_shape_answers_at_first_read
+  rw [List.all_eq_true]
+  intro o ho
+  obtain ⟨x, hx, rfl⟩ := List.mem_map.mp ho
+  have := hwf x hx
+  cases h1 : x.1 with
+  | none => simpa [h1] using this
+  | some t =>
+    obtain ⟨fn, b, ws⟩ := t
+    simp [h1] at this
+    rw [this.1, C16_no_method_touches_the_caches]
+    simpa [Op.clean] using this.2
+
+def wK (k : Nat) : World := fun _ => k
+
+/-- a blocking call that restarts the platform cache between its two samples (what a body with `cop` steps means):
+    the block answers `status` from two different snapshots and reads it twice — the clean-body hypothesis is needed -/
+theorem C16_cache_restart_in_a_call_counterexample :
+    let h : List Op := [.enter, .call [.get .status false] [],
+      .call [.get .stat false, .tick, .cop .plat false, .cop .plat true, .get .stat false] [wK 2],
+      .call [.get .status false] []]
+    outs (St.init (wK 1)) h = [[], [1], [1, 2], [2]] ∧ ASpec.outsS (ASpec.SSt.init (wK 1)) h = [[], [1], [1, 1], [1]] ∧
+      (run (St.init (wK 1)) h).1.reads .status = 2 := by decide
+
+/-- non-vacuity: a blocking call in a block, records changing while it sleeps; both samples and the later call are
+    served from the first read -/
+example : outs (St.init (wK 1)) [.enter, .call [.get .stat true, .tick, .get .stat false] [wK 2], .call [.get .stat false] [],
+    .exit, .call [.get .stat true] []] = [[], [1, 1], [1], [], [2]] := by decide
+
+end Psutil.C16.Act
